@@ -3,7 +3,7 @@
 Oracle: 60-digit truncated Taylor arithmetic (jets) on the same expression tree; analyticity of
 the tree on every sampled disc is certified by complex ball arithmetic *before* anything is
 asserted, and the step configuration is constructed to stay inside half the certified radius.
-Envelope: |lib - exact| <= tol[method, n, cfg] * S_n + 64 eps (|exact| + |x| S_{n+1}).
+Envelope: |lib - exact| <= tol[method, n, cfg] * U + 64 eps (|exact| + sens_n).
 """
 import math
 import os
@@ -96,7 +96,8 @@ class C01(Prop):
                 continue
             U = U[0]
             err = abs(lib - exact)
-            floor = FLOOR * dc.EPS * (abs(exact) + abs(xv) * S1)
+            sens = ev.analyses[j].sensitivity(n)
+            floor = FLOOR * dc.EPS * (abs(exact) + (sens[1] if sens else abs(xv) * S1))
             excess = max(err - floor, 0.0)
             ratio = excess / U if U > 0 else (0.0 if excess == 0 else math.inf)
             ctx.track('err/U|%s|%d|%s' % (method, n, bucket), ratio,
